@@ -37,6 +37,84 @@ def verdict_t(out):
     return None
 
 
+# ---- multi-member archives, option combinations, member selection, unsupported methods (exit status clause) ----
+
+def _member(method, data, length, crc, name, level):
+    """one member (header + data, no end marker)"""
+    return mk_archive(method, data, length, crc, name=name, level=level)[:-1]
+
+
+def multi_cases(rnd, quick):
+    """(archive, command word, member patterns, [(name, verdict, supported)], tag): archives of 1-4 STORED members
+    whose verdicts the harness knows without the tool (good; wrong CRC; wrong length; cut data is not used here),
+    plus members of a method the library has no decoder for (recorded length > 0: nothing is produced, so
+    they cannot be good).  Run with t / x and their quiet levels, with and without member patterns."""
+    res = []
+    kinds = ["good", "crc", "len", "unknown"]
+    shapes = [["crc", "good"], ["good", "crc", "good"], ["len", "good", "good"], ["good", "good"], ["good", "good", "crc"],
+              ["unknown", "good"], ["good", "unknown"], ["unknown"], ["crc"], ["good"], ["len"], ["good", "good", "good", "crc", "good"]]
+    for _ in range(4 if quick else 40):
+        shapes.append([rnd.choice(kinds) for _ in range(rnd.choice([2, 3, 4]))])
+    cmds = ["t", "x", "tq", "tq1", "tq2", "xq", "xq1", "xq2", "xf", "e", "tv", "xfq0", "xi"]
+    for shape in shapes:
+        ms, parts = [], []
+        for i, k in enumerate(shape):
+            n = rnd.choice([1, 3, 40, 300, 2100])
+            data = bytes(rnd.randrange(1, 256) for _ in range(n))
+            name = b"m%d%s.bin" % (i, k.encode())
+            length, crc, method = n, crc16(data), b"-lh0-"
+            if k == "crc":
+                crc ^= 1 << rnd.randrange(16)
+            elif k == "len":
+                length = n + 1
+            elif k == "unknown":
+                method = rnd.choice([b"-lh9-", b"-lh2-", b"-lh8-", b"-pm9-"])     # names the start-of-archive scan accepts
+            parts.append(_member(method, data, length, crc, name, rnd.randrange(3)))
+            ms.append((name, "good" if k == "good" else "bad", k != "unknown"))
+        arc = b"".join(parts) + b"\0"
+        use = cmds if len(shape) > 1 and shapes.index(shape) < 8 else rnd.sample(cmds, 4) + ["t", "x"]
+        for cmd in use:
+            res.append((arc, cmd, [], ms, "multi:" + cmd))
+        # member selection: only the good ones / only one bad one / a pattern that matches all
+        good = [m for m in ms if m[1] == "good"]
+        bad = [m for m in ms if m[1] == "bad"]
+        for cmd in ("t", "x", "tq2"):
+            if good and bad:
+                res.append((arc, cmd, [m[0].decode() for m in good], ms, "select-good:" + cmd))
+                res.append((arc, cmd, [bad[0][0].decode()], ms, "select-bad:" + cmd))
+                res.append((arc, cmd, ["*.bin"], ms, "select-all:" + cmd))
+    return res
+
+
+def _glob1(pat, name):
+    import fnmatch
+    return fnmatch.fnmatchcase(name, pat)
+
+
+def judge_multi(case, rc, out):
+    """None, or a description of what contradicts the property"""
+    arc, cmd, pats, ms, tag = case
+    sel = [m for m in ms if not pats or any(_glob1(p_, m[0].decode()) for p_ in pats)]
+    any_bad = any(v == "bad" for _, v, _ in sel)
+    if any_bad and rc == 0:
+        return "exit status 0 although a selected member fails (%s)" % ", ".join(n.decode() for n, v, _ in sel if v == "bad")
+    if not any_bad and rc != 0:
+        return "exit status %d although every selected member is good" % rc
+    quiet = 2 if cmd.endswith("q") or "q2" in cmd else 1 if "q1" in cmd else 0
+    if quiet < 2:
+        okw, badw = (b"Tested", b"CRC error") if cmd[0] == "t" else (b"Melted", b"Failure")
+        for name, v, supported in sel:
+            said_ok = name + b"\t- " + okw in out
+            said_bad = name + b"\t- " + badw in out
+            if v == "bad" and said_ok:
+                return "member %s reported '%s' although its bytes do not match the header" % (name.decode(), okw.decode())
+            if v == "good" and (said_bad or not said_ok):
+                return "good member %s not reported '%s'" % (name.decode(), okw.decode())
+            if v == "bad" and supported and not said_bad:
+                return "failing member %s has no '%s' line" % (name.decode(), badw.decode())
+    return None
+
+
 def run(ctx):
     rnd = random.Random(ctx.seed * 982451653 + 7)
     cb = CBuild(PID)
@@ -62,6 +140,13 @@ def run(ctx):
                 cases.append((mk_archive(b"-lh0-", b"", 0, 0, rnd=rnd), "good", "empty-valid"))
             good = mk_archive(b"-lh0-", data, n, crc16(data), rnd=rnd)
             cases.append((good, "good", "stored-valid"))
+            # special values of the recorded fields are values like any other: a recorded CRC of 0 or 0xFFFF over data whose CRC
+            # is something else, a recorded length of 0 / 2^32-1 over n bytes
+            nz = bytes((b | 1) for b in data)
+            for rc_ in (0, 0xFFFF):
+                cases.append((mk_archive(b"-lh0-", nz, n, rc_, rnd=rnd), "good" if crc16(nz) == rc_ else "bad", "stored-recorded-crc-special"))
+            cases.append((mk_archive(b"-lh0-", nz, 2 ** 32 - 1, crc16(nz), rnd=rnd), "bad", "stored-recorded-length-special"))
+            cases.append((mk_archive(b"-lh0-", nz, 0, crc16(nz), rnd=rnd), "bad" if crc16(nz) != 0 else "good", "stored-recorded-length-special"))
             cases.append((mk_archive(b"-lh0-", data, n, crc16(data) ^ 1, rnd=rnd), "bad", "stored-wrong-crc"))
             cases.append((mk_archive(b"-lh0-", data, n + 1, crc16(data), rnd=rnd), "bad", "stored-length+1"))
             if n > 1:
@@ -92,6 +177,8 @@ def run(ctx):
                 d = s["data"]
                 cases.append((mk_archive(m.encode(), d, s["length"], s["crc"], rnd=rnd), None, "member-valid"))
                 cases.append((mk_archive(m.encode(), d, s["length"], s["crc"] ^ 0x8000, rnd=rnd), None, "member-wrong-crc"))
+                if s["crc"] != 0:
+                    cases.append((mk_archive(m.encode(), d, s["length"], 0, rnd=rnd), None, "member-recorded-crc-0"))
                 cases.append((mk_archive(m.encode(), d, s["length"] + 1, s["crc"], rnd=rnd), None, "member-length+1"))
                 cases.append((mk_archive(m.encode(), d, max(0, s["length"] - 1), s["crc"], rnd=rnd), None, "member-length-1"))
                 for _ in range(3 if ctx.quick else 12):
@@ -152,6 +239,33 @@ def run(ctx):
             if vx == "good" and xdata is not None and (len(xdata) != hdr["length"] or crc16(xdata) != hdr["crc"]):
                 viol.append({"property": PID, "kind": "melted-file-does-not-match", "archive_hex": a.hex()[:200000],
                              "file_len": len(xdata), "recorded_length": hdr["length"], "sig": "melted:" + tag})
+        # ---- multi-member archives x commands and quiet levels x member selection: exit status and per-member lines
+        mcases = multi_cases(rnd, ctx.quick)
+
+        def mone(job):
+            i, (a, cmd, pats, ms, tag) = job
+            d = os.path.join(scratch, "m%d" % i)
+            os.makedirs(d, exist_ok=True)
+            if os.geteuid() == 0:
+                os.chown(d, 65534, 65534)
+            open(os.path.join(d, "a.lzh"), "wb").write(a)
+            r = common.run_lha(lha, [cmd, "a.lzh"] + list(pats), cwd=d, as_nobody=True, stdin=b"")
+            shutil.rmtree(d, ignore_errors=True)
+            return r
+        with ThreadPoolExecutor(max_workers=common.NCPU) as ex:
+            mres = list(ex.map(mone, enumerate(mcases)))
+        for mc, r in zip(mcases, mres):
+            dist[mc[4].split(":")[0]] += 1
+            ab = common.abnormal(r[0], r[2])
+            if ab:
+                viol.append({"property": PID, "kind": "tool-abnormal-termination", "archive_hex": mc[0].hex()[:100000], "command": mc[1],
+                             "observed": ab, "sig": "crash"})
+                continue
+            why = judge_multi(mc, r[0], r[1])
+            if why:
+                viol.append({"property": PID, "kind": "wrong-exit-status-or-verdict-line", "command": mc[1], "patterns": mc[2],
+                             "members": [(n.decode(), v) for n, v, _ in mc[3]], "what": why, "exit_status": r[0],
+                             "archive_hex": mc[0].hex()[:200000], "case_tag": mc[4], "sig": "multi:" + mc[4].split(":")[0]})
         # ---- the library's own return values (lha_reader_check / lha_reader_extract), also when the member has been
         #      read, checked or extracted before: a success must still mean "the bytes written / checked match"
         import test_rdr as T, itertools
@@ -173,6 +287,39 @@ def run(ctx):
             lib_lines.append(T.case(rnd.choice(T.KINDS), rnd.choice(T.POLICIES), a, ops[:40]))
         if common.sh([drv, "--probe"])[1].strip() != "chroot":
             lib_lines = [l for l in lib_lines if T.plain_ok(l)]
+        # library verdicts with an expectation the harness knows without the library: stored members (good, wrong CRC,
+        # wrong length) and members of methods without a decoder, checked / extracted with and without a monitor
+        known = []      # (line, [expected result per op or None])
+        for shape in (["good"], ["crc"], ["len"], ["unknown"], ["good", "unknown", "good"], ["unknown", "crc", "good"],
+                      ["crc", "good", "len"], ["good", "good"]):
+            for opk in ("c", "cm", "x", "xm"):
+                hs, exp = b"", []
+                for i, k in enumerate(shape):
+                    n = rnd.choice([1, 7, 200, 1500])
+                    data = bytes(rnd.randrange(1, 256) for _ in range(n))
+                    length, crc, method = n, crc16(data), b"-lh0-"
+                    if k == "crc":
+                        crc ^= 1 << rnd.randrange(16)
+                    elif k == "len":
+                        length = n + rnd.choice([1, 2, 100])
+                    elif k == "unknown":
+                        method = rnd.choice([b"-lh9-", b"-lh3-", b"-pm7-"])     # names the start-of-archive scan accepts
+                    hs += T.header(rnd.choice([0, 1, 2, 3]), method, n, length, crc, b"k%d%s" % (i, k.encode())) + data
+                    exp += [None, opk + ("=1" if k == "good" else "=0")]
+                known.append((T.case(rnd.choice(T.KINDS), "plain", hs + b"\0", ["n", opk] * len(shape)), exp))
+        kout = common.run_lines_parallel([drv], [l for l, _ in known])
+        for (l, exp), c in zip(known, kout):
+            dist["library:known-verdict"] += 1
+            if "CHILD-FAILED" in c or "|" not in c:
+                viol.append({"property": PID, "kind": "reader-abnormal-termination", "case": l, "observed": c[-400:], "sig": "crash"})
+                continue
+            got = c.split("|")[0].split(" ; ")
+            for e, g in zip(exp, got):
+                if e is not None and g.split(" ")[0] != e:
+                    viol.append({"property": PID, "kind": "library-verdict-wrong", "case": l, "ops": l.split()[5], "expected": e,
+                                 "observed": g[:200], "what": "lha_reader_check / lha_reader_extract returned a verdict that the "
+                                 "recorded length and CRC-16 of the stored bytes do not allow", "sig": "library-known-verdict"})
+                    break
         lco = common.run_lines_parallel([drv], lib_lines)
         lmo = common.run_lines_parallel([ctx.model], lib_lines)
         init = common.run_lines_parallel([drv], [T.case("cbskip", "eod", b"\0", [])])[0]
@@ -189,7 +336,7 @@ def run(ctx):
                              "ops": l.split()[5], "observed": c.split("|")[0][:600], "sig": "library-verdict"})
             elif c != m and not (m.endswith("FAULT 1411") or m.endswith("FAULT 1414")):
                 lib_mism.append({"case": l[:6000], "c": c.split("|")[0][-500:], "model": m.split("|")[0][-500:]})
-        cov = {"evaluations": 3 * len(cases) + len(lib_lines), "distinct_nontrivial": nontriv,
+        cov = {"evaluations": 3 * len(cases) + len(lib_lines) + len(mcases) + len(known), "distinct_nontrivial": nontriv,
                "rule": "single-member archives: stored members of many sizes (valid; wrong CRC; length +-1; the archive cut at every "
                        "offset of the data, densely near the end; for members <= 64 bytes a burst of width 1..16 at every bit offset, "
                        "LSB-first numbering) with the expected verdict computed by the harness; members of every method from the "
@@ -198,7 +345,12 @@ def run(ctx):
                        "status of t and x, and the extracted file; library level: lha_reader_check / lha_reader_extract through the reader driver on "
                        "small and generated archives with op sequences that also repeat operations on a member (check then extract, "
                        "read then extract, extract twice): every extract that returns 1 must have written a file with the header's "
-                       "length and CRC, and the results must equal the reader model's. non-trivial = case whose header was reached",
+                       "length and CRC, and the results must equal the reader model's; multi-member archives of stored members (good, wrong CRC, wrong length) and of "
+                       "members of methods without a decoder, run with t/x/e, the quiet levels q q0 q1 q2, f, i, v and with member "
+                       "patterns selecting the good ones, one failing one, or all: exit status non-zero iff a selected member fails, one "
+                       "Tested/Melted or CRC error/Failure line per selected member when not quiet; the same kinds of member through "
+                       "lha_reader_check / lha_reader_extract with and without a monitor against verdicts known to the harness. "
+                       "non-trivial = case whose header was reached",
                "distribution": dict(dist), "samples": [cases[0][0].hex()[:120], cases[-1][0].hex()[:120]]}
         return {"violations": viol[:10], "mismatches": lib_mism[:10], "coverage": cov,
                 "search_note": "direct oracle: verdict vs independently measured length and CRC-16"}
@@ -234,6 +386,23 @@ def replay(payload):
     cb = CBuild(PID)
     d = common.scratch_dir("c07r")
     try:
+        if "archive_hex" not in payload and "case" in payload:
+            import test_rdr as T
+            drv = cb.compile("drv_rdr", [os.path.join(common.CDIR, "drv_rdr.c")] + cb.lib_sources(), extra=["-I" + common.CDIR], sanitize=True)
+            o = common.run_lines_parallel([drv], [payload["case"]])[0]
+            print("observed:", o.split("|")[0][-600:])
+            print("expected:", payload.get("expected"), " recorded:", payload.get("observed"))
+            bad = payload.get("expected") is not None and payload.get("observed", "") in o
+            print("REPRODUCED" if bad else "not reproduced")
+            return 1 if bad else 0
+        if "command" in payload and payload.get("kind") == "wrong-exit-status-or-verdict-line":
+            lha = common.build_lha(cb)
+            open(os.path.join(d, "a.lzh"), "wb").write(bytes.fromhex(payload["archive_hex"]))
+            r = common.run_lha(lha, [payload["command"], "a.lzh"] + list(payload.get("patterns", [])), cwd=d, stdin=b"")
+            print(r[1].decode("latin1")[-400:], "exit", r[0], " members:", payload.get("members"))
+            bad = r[0] == payload.get("exit_status")
+            print("REPRODUCED" if bad else "not reproduced")
+            return 1 if bad else 0
         lha = common.build_lha(cb)
         open(os.path.join(d, "a.lzh"), "wb").write(bytes.fromhex(payload["archive_hex"]))
         rt = common.run_lha(lha, ["t", "a.lzh"], cwd=d)
